@@ -12,6 +12,11 @@ def sh(*a, cwd=None, timeout=300):
     return r.returncode, (r.stdout + r.stderr)
 
 def main(dirs):
+    global WAVE
+    WAVE = ""
+    if dirs and dirs[0].startswith("--wave="):
+        WAVE = dirs[0].split("=", 1)[1]
+        dirs = dirs[1:]
     head = sh("git", "-C", "/repo", "rev-parse", "HEAD")[1].strip()
     for d in dirs:
         pid = os.path.basename(d.rstrip("/"))
@@ -19,7 +24,7 @@ def main(dirs):
             n = re.search(r"patch(\d+)\.diff", patch).group(1)
             demo = os.path.join(d, f"demo{n}.py")
             metaf = os.path.join(d, f"meta{n}.json")
-            name = f"{pid}-{n}"
+            name = f"{pid}-{WAVE}{n}"
             dest = os.path.join(VERIF, "seeded", name)
             if os.path.exists(dest):
                 print(name, "already ingested"); continue
